@@ -383,20 +383,19 @@ impl PublishBuilder {
         }
     }
 
-    async fn send_at_least_once_inner(
+    fn send_at_least_once_inner(
         mut self,
         payload: Bytes,
-    ) -> Result<codec::PublishAck, SendPacketError> {
+    ) -> impl Future<Output = Result<codec::PublishAck, SendPacketError>> {
         // packet id
         let idx = self.shared.set_publish_id(&mut self.packet);
 
-        // send publish to client
+        // send publish to client; the window slot is taken right away (as for QoS 2 and in v3),
+        // the readiness check made by the caller must not be separated from it by a suspension point
         log::trace!("Publish (QoS1) to {:#?}", self.packet);
-        self.shared
-            .wait_publish_response(idx, AckType::Publish, self.packet, Some(payload))?
-            .await
-            .map(Ack::publish)
-            .map_err(|_| SendPacketError::Disconnected)
+        let rx =
+            self.shared.wait_publish_response(idx, AckType::Publish, self.packet, Some(payload));
+        async move { rx?.await.map(Ack::publish).map_err(|_| SendPacketError::Disconnected) }
     }
 
     async fn stream_at_least_once_inner(
